@@ -101,6 +101,7 @@ def mqstep(n, meth, param, ptype, awaitst, nxt, outtype, idexpr, refuse=False):
     done = nxt == 0
     w('''//@ func (%s).%s
 //@   nopanic [C25]
+//@   tags [C24]
 //@   requires [C25] wf: bp%dWF(t) && hLite(t.handler) && %s != nil
 %s//@   let awaited = old(t.State) == %s
 //@   assigns rt.State, rt.Data, rt.retryNum, rt.timer, armed(rt.timer), h.mqttOutN, h.mqttOut, tb.err, closed(tb.done), calls(tb.finally)
@@ -150,6 +151,7 @@ w('''
 // object (same message ID and payload), with DUP set where the packet type has one.
 //@ func (*brokerPublishTransactionBase).resend
 //@   nopanic [C25]
+//@   tags [C24]
 //@   requires [C25] wf: t.handler != nil && hLite(t.handler)
 //@   requires [C23] queue_wf: bufWF(t.handler)
 //@   requires [C16] holds_what_was_sent: pktx != nil && (wfFromGateway(pktx) || isMqAck(pktx))
